@@ -1,4 +1,5 @@
 CFG = {
+    "extract": "save_order",
     "lean_targets": ["Norad.Props.C08", "Norad.Props.C08C13"],
     "audit": "Norad/Audit/C08.lean",
     "rule": ("Font::save through the public API in a sandbox directory: fonts invalid by each of the refusal kinds (format version 1/2, public.objectLibs in the font lib, "
@@ -28,7 +29,8 @@ MANIFEST = {
              "Correspondence: refused, valid and in-place saves through the real API in a sandbox, result class and post-state compared with the model; oracle: snapshot equality for every "
              "refusal kind in the specification's sense, reported variant among the applicable kinds, store files kept byte for byte."
              " Second phase: inplace_save_keeps_store_files (load from t, save onto t: every data/images file keeps its bytes although every cell was notLoaded; well-formed FS) and its counterexample on the variant without step 5."
-             " Third phase: generators extended by 12 font-info boundary variants, 5 groups shapes, save_with_options, other spellings of the target, fonts from partial loads."),
+             " Third phase: generators extended by 12 font-info boundary variants, 5 groups shapes, save_with_options, other spellings of the target, fonts from partial loads."
+             " Source-level tie: tools/extract_save_order.py regenerates Generated/SaveOrder.lean from src/font.rs on every run; source_validators_precede_wipe (the steps in front of remove_dir_all in fn save_impl are exactly the model's five validators, then create_dir, then the writes) and source_save_order_matches_plan (the write order of the source equals the order of `plan` on a probe font), by decide."),
     "design_ref": "5 / C08, 4 (abstract file system)",
     "note": "trusted: Lean kernel + 3 standard axioms; harness/driver glue; std::fs vs abstract FS; validators and renderers abstract",
     "technique": "Lean 4 proof about an effect-ordered model of save + differential sandbox snapshots against the real crate",
